@@ -35,7 +35,7 @@ import (
 // decrypting reader, seekable.go) or over a double that hides Seek (tink-go's sequential reader).
 //
 //	part <seek|seq> <css> <hlen> <pt>     pt: hex | "-" | gen:<n> (pt[i] = (7i+3) mod 251)
-//	fixes eof=<0|1> hdreof=<0|1> seqcut=<0|1>   (probed) the seekable reader authenticates the last segment before EOF;
+//	fixes eof=<0|1> hdreof=<0|1> seqcut=<0|1> buf=<0|1>   (probed) the seekable reader authenticates the last segment before EOF;
 //	                                      a stream that ends inside the envelope is an error, not an empty part
 //	mut none | xor <off> <mask> | trunc <n> | append <hex> | swap <i> <j> | cross-whole | cross-body <n2> |
 //	    hdr-segsize <v> <hlen2> | hdr-dek | hdr-version <v> <hlen2> | hdr-keytype <hlen2>
@@ -387,6 +387,38 @@ func (e *c16Env) run(k int, seed uint64, c *c16Case) {
 	}
 }
 
+// c16UseAfterError: a seek/read sequence that keeps using one reader whatever happens: every segment is
+// visited front to back, then back to front, each visit followed by a return to the segment visited before.
+func c16UseAfterError(css, n int) []c16Op {
+	cap0, pss := css-56, css-16
+	starts := []int{0}
+	for s := cap0; s < n; s += pss {
+		starts = append(starts, s)
+	}
+	var ops []c16Op
+	visit := func(j, delta int) {
+		o := starts[j] + delta
+		if o > n {
+			o = n
+		}
+		ops = append(ops, c16Op{seek: true, whence: 0, off: o}, c16Op{n: 8})
+	}
+	for j := range starts {
+		visit(j, 0)
+		if j > 0 {
+			visit(j-1, 3)
+		}
+	}
+	for j := len(starts) - 1; j >= 0; j-- {
+		visit(j, 5)
+		if j+1 < len(starts) {
+			visit(j+1, 1)
+		}
+	}
+	ops = append(ops, c16Op{seek: true, whence: 0, off: 0}, c16Op{n: 2 * css}, c16Op{n: 2 * css}, c16Op{n: 2 * css})
+	return ops
+}
+
 // c16Lengths: plaintext lengths around 0, the first-segment capacity and k segments, ± 1.
 func c16Lengths(css int) []int {
 	cap0, pss := css-56, css-16
@@ -528,7 +560,33 @@ func runC16(args []string) {
 			rc.Close()
 		}
 		_ = os.Remove(e.file(id))
-		e.fixes = fmt.Sprintf("fixes eof=%d hdreof=%d seqcut=%d", eof, hdreof, seqcut)
+		// probe: does a failed segment load leave the previously buffered segment intact
+		// (fixes/C16-invalidate-buffer-on-failed-load.patch)? 72 + 112 + 112 bytes, segment 2 damaged:
+		// read in segment 1, run into segment 2, read in segment 1 again.
+		buf := 0
+		{
+			id := *verifx.Must(partstore.NewRandomPartId())
+			pt := c16Gen(296)
+			st, hl := e.craft(id, pt, 128, nil)
+			st[4+hl+2*128+50] ^= 1
+			verifx.Check(os.WriteFile(e.file(id), st, 0o600))
+			if rc, err := e.seekMw.GetPart(e.ctx, nil, id); err == nil {
+				if sk, ok := rc.(io.Seeker); ok {
+					b := make([]byte, 8)
+					_, _ = sk.Seek(72, io.SeekStart)
+					_, _ = rc.Read(b)
+					_, _ = sk.Seek(184, io.SeekStart)
+					_, _ = rc.Read(b)
+					_, _ = sk.Seek(77, io.SeekStart)
+					if n, err := rc.Read(b); err != nil || bytes.Equal(b[:n], pt[77:77+n]) {
+						buf = 1
+					}
+				}
+				rc.Close()
+			}
+			_ = os.Remove(e.file(id))
+		}
+		e.fixes = fmt.Sprintf("fixes eof=%d hdreof=%d seqcut=%d buf=%d", eof, hdreof, seqcut, buf)
 	}
 	k := 0
 	emit := func(seed uint64, c *c16Case) {
@@ -556,6 +614,13 @@ func runC16(args []string) {
 	emit(uint64(k), &c16Case{path: "seek", css: 128, pt: c16Gen(200), mut: c16Mut{kind: "hdr-segsize", a: 57}, offs: []int{0, 150, 187, 200}})
 	// bytes appended to the stored stream shift that length too: a 1-byte part + 15 bytes reads as empty
 	emit(uint64(k), &c16Case{path: "seek", css: 64, pt: []byte{0x49}, mut: c16Mut{kind: "append", data: bytes.Repeat([]byte{0x5c}, 15)}, offs: []int{0, 1}})
+	// a reader that is used on after an authentication error: read segment 1, run into the damaged segment 2,
+	// seek back into segment 1 (3 segments of 72 + 112 + 112 bytes; one flipped byte in the middle of segment 2)
+	{
+		hl128 := len(verifx.Must(json.Marshal(tink.PartHeader{Version: 3, KeyType: "local", EncryptedDEK: make([]byte, 60), SegmentSize: 128})))
+		emit(uint64(k), &c16Case{path: "seek", css: 128, pt: c16Gen(296), mut: c16Mut{kind: "xor", a: 4 + hl128 + 2*128 + 50, b: 1}, offs: []int{0, 72, 184},
+			ops: c16UseAfterError(128, 296)})
+	}
 	small := []int{64, 100, 57}
 	if f.Tier == "thorough" {
 		small = append(small, 4096, 333)
@@ -590,7 +655,7 @@ func runC16(args []string) {
 			}
 			hl := len(verifx.Must(json.Marshal(tink.PartHeader{Version: 3, KeyType: "local", EncryptedDEK: make([]byte, 60), SegmentSize: css})))
 			for _, m := range c16Mutations(css, hl, n) {
-				emit(uint64(k), &c16Case{path: "seek", css: css, pt: c16Gen(n), mut: m, offs: []int{0, 1, cap0, n}})
+				emit(uint64(k), &c16Case{path: "seek", css: css, pt: c16Gen(n), mut: m, offs: []int{0, 1, cap0, n}, ops: c16UseAfterError(css, n)})
 				emit(uint64(k), &c16Case{path: "seq", css: css, pt: c16Gen(n), mut: m})
 			}
 		}
@@ -612,7 +677,8 @@ func runC16(args []string) {
 			if c.path == "seek" {
 				c.offs = []int{r.Intn(n + 1)}
 			}
-		} else if c.path == "seek" {
+		}
+		if c.path == "seek" && (c.mut.kind == "" || r.Chance(2, 3)) {
 			// a seek/read sequence on one reader
 			nops := 4 + r.Intn(12)
 			for j := 0; j < nops; j++ {
